@@ -1,8 +1,8 @@
 (* C02 -- and/or short-circuit and return Python's operand value.
-   Statements only; proofs are in Compiler/Correct1.v, Compiler/BoolRef.v, Compiler/NoTimeout.v. *)
+   Statements only; proofs are in Compiler/Correct1.v, Compiler/BoolRef.v, Compiler/BoolSpec.v, Compiler/NoTimeout.v. *)
 From HyV Require Import Compiler.Syntax Compiler.PySem Compiler.HySem Compiler.Compile
   Compiler.PyFacts Compiler.HyFacts Compiler.Sim Compiler.Named Compiler.Correct1 Compiler.Correct3
-  Compiler.NoTimeout Compiler.BoolRef Compiler.Shape.
+  Compiler.NoTimeout Compiler.BoolRef Compiler.BoolSpec Compiler.Shape.
 
 (* The reference semantics says what the property says: the value is that of the first falsy (and) /
    truthy (or) operand or else of the last; (and) is True, (or) is None; exactly the operands up to
@@ -12,6 +12,19 @@ Theorem C02_reference_semantics : forall issub fuel isand (l : list (nat * val))
   (HV (and_or_value isand l), s, t ++ map fst (evaluated isand l)).
 Proof. exact and_or_reference. Qed.
 Print Assumptions C02_reference_semantics.
+
+(* ... and that reading of the reference is itself a theorem, not a comment: for every operator and every
+   operand list, either every operand "continues" the scan (truthy for and, falsy for or) and then all
+   run and the value is the last one's (True / None for no operands), or the list splits at the FIRST
+   operand that stops the scan, exactly the operands up to and including it run, and the value is its. *)
+Theorem C02_reference_is_first_stop_or_last : forall isand (l : list (nat * val)),
+  (Forall (continues isand) l /\ evaluated isand l = l /\
+   and_or_value isand l = match rev l with kv :: _ => snd kv | [] => if isand then VBool true else VNone end)
+  \/
+  (exists p kv q, l = p ++ kv :: q /\ Forall (continues isand) p /\ truthy (snd kv) <> isand /\
+     evaluated isand l = p ++ [kv] /\ and_or_value isand l = snd kv).
+Proof. exact and_or_spec. Qed.
+Print Assumptions C02_reference_is_first_stop_or_last.
 
 (* The compiled code simulates that reference: for every operator, every operand list of ANY length whose
    operands are arbitrary forms of the modelled language (plain, effectful, statement-producing do/setv/
